@@ -118,7 +118,16 @@ def t_parseBlock(rep, ints):
     return "lang/expressions", "expressions", '\t"time"', body
 
 
+def t_createProcess(rep, ints):
+    chk = 'func(so, se string, ex int) string { if !strings.Contains(so, "hello") { return "stderr redirected with <!out> did not arrive on stdout" }; return "" }'
+    return script_test("lang", "lang_test", [
+        ('err <!out> hello', chk),
+        ('out start; err <!out> hello', chk),
+    ])
+
+
 def install(T, g):
+    T["lang.createProcess"] = t_createProcess
     T["lang/expressions.(*ParserT).parseStatement"] = t_parseBlock
     T["lang/expressions.(*ParserT).parseExpression"] = t_parseBlock
     T["lang/expressions.(*ParserT).parseBareword"] = t_parseBlock
